@@ -236,12 +236,22 @@ def main():
             del ctx.violations[nv0:]
             res.setdefault("timed_out_cases", []).append(case if len(res.get("timed_out_cases", [])) < 2 else None)
             ctx.cur_nontrivial = False
-        except RecursionError:
-            res["errors"].append("check: RecursionError\n" + json.dumps(case, default=str)[:1500])
-        except Exception:  # noqa: BLE001
-            res["errors"].append("check: " + traceback.format_exc(limit=8) + "\ncase=" + json.dumps(case, default=str)[:1500])
-            if len(res["errors"]) > 5:
-                break
+        except Exception as e:  # noqa: BLE001
+            from rv.gen.circuits import Misbehaved
+
+            if isinstance(e, Misbehaved):
+                # observed while the workload was being built from legal arguments
+                if e.kind in getattr(mod, "BUILD_VERDICTS", ()):
+                    ctx.violation(e.kind, e.detail)
+                else:
+                    ctx.count(f"note:{e.kind}_while_building")
+                    ctx.cur_nontrivial = False
+            elif isinstance(e, RecursionError):
+                res["errors"].append("check: RecursionError\n" + json.dumps(case, default=str)[:1500])
+            else:
+                res["errors"].append("check: " + traceback.format_exc(limit=8) + "\ncase=" + json.dumps(case, default=str)[:1500])
+                if len(res["errors"]) > 5:
+                    break
         res["cases"] += 1
         dt = time.time() - tc0
         if dt > res.get("slowest_case_s", 0):
